@@ -21,4 +21,19 @@ MUTANTS = [
      "old": "                if uds_response_raw is not None:\n                    writer.write(hexlify(uds_response_raw) + b\"\\n\")\n                    await writer.drain()\n            except Exception as e:\n                logger.error(f\"Unexpected exception when handling client",
      "new": "                if uds_response_raw is not None:\n                    writer.write(hexlify(uds_response_raw) + b\"\\n\")\n                    await writer.drain()\n                else:\n                    break\n            except Exception as e:\n                logger.error(f\"Unexpected exception when handling client"},
     {"prop": "C19", "name": "server-strip-to-split", "file": "services/uds/server.py", "old": 'tcp_request = line.decode("ascii").strip()', "new": 'tcp_request = line.decode("ascii").strip()[:4094]'},
+    # ---- C01
+    {"prop": "C01", "name": "dddi-swap-fields", "file": "services/uds/core/service.py",
+     "old": "                + to_bytes(position_in_source_data_record, 1)\n                + to_bytes(memory_size, 1)",
+     "new": "                + to_bytes(memory_size, 1)\n                + to_bytes(position_in_source_data_record, 1)"},
+    {"prop": "C01", "name": "wdbi-little-endian", "file": "services/uds/core/service.py",
+     "old": 'return pack("!BH", self.SERVICE_ID, self.data_identifier) + self.data_record', "new": 'return pack("<BH", self.SERVICE_ID, self.data_identifier) + self.data_record'},
+    {"prop": "C01", "name": "suppress-bit-dropped", "file": "services/uds/core/service.py",
+     "old": "return int(self.suppress_response) * 0x80 + self.sub_function", "new": "return int(self.suppress_response) * 0x40 + self.sub_function"},
+    {"prop": "C01", "name": "alfid-shift-3", "file": "services/uds/core/utils.py",
+     "old": "address_and_length_fmt = (size_length << 4) | addr_length", "new": "address_and_length_fmt = (size_length << 3) | addr_length"},
+    {"prop": "C01", "name": "no-check-sub-function", "file": "services/uds/core/utils.py",
+     "old": "    if not 0 <= sub_function <= 0x7F:", "new": "    if not 0 <= sub_function <= 0xFF:"},
+    {"prop": "C01", "name": "client-rmba-swaps-args", "file": "services/uds/core/client.py",
+     "old": "service.ReadMemoryByAddressRequest(\n                memory_address, memory_size, address_and_length_format_identifier\n            )",
+     "new": "service.ReadMemoryByAddressRequest(\n                memory_size, memory_address, address_and_length_format_identifier\n            )"},
 ]
